@@ -81,6 +81,14 @@ def usable(sc, si, k):
     return True
 
 
+def natural_form(sc, si, k):
+    """the name a user normally uses for a group/channel topic: the channel name for a channel-enabled topic he is not
+    a group subscriber of (as the driver's seen())"""
+    t = sc.topics[k]
+    u = sc.sessions[si]["user"]
+    return "chn" if (t["kind"] == "chn" and u != t["owner"] and u not in t["members"]) else "grp"
+
+
 def gen_setup(rng, sid, seq=False, model_scope=False):
     sc = Scn(sid)
     sc.seq = seq
@@ -246,6 +254,145 @@ def gen_burst_scn(rng, sid):
     return sc
 
 
+def gen_chan_scn_c14c(rng, sid):
+    """Channel-enabled topics addressed under BOTH names.  One channel-enabled topic (ref 1) whose other users are partly
+    group subscribers (they normally say grpXXX) and partly channel readers (chnXXX), optionally a plain group topic
+    (ref 2); 1-2 of the non-owner sessions have a 2-slot send queue.  Phases: everybody attaches (a share of them under
+    the OTHER name); random mixes of {sub} / {leave} / {leave unsub} under either name, {pub} by the owner, disconnects;
+    slow-consumer phases (writers of the small-queue sessions stalled, the owner publishes 3-4 messages: the third
+    broadcast finds the queue full and the topic drops the session; then the writers resume); idle unloads (alone on
+    their topic); finally every live session re-subscribes under both names.  No step terminates a topic instance in one
+    burst with another request on that topic, so the outcome class on the unchanged tree does not depend on the schedule."""
+    sc = Scn(sid)
+    nu = rng.randint(3, 4)
+    sc.users = list(range(1, nu + 1))
+    owner = rng.choice(sc.users)
+    others = [u for u in sc.users if u != owner]
+    members = [u for u in others if rng.random() < 0.4]
+    if len(members) == len(others):
+        members.remove(rng.choice(members))        # at least one channel reader
+    sc.topics[1] = dict(kind="chn", owner=owner, members=[owner] + members)
+    plain = rng.random() < 0.5
+    if plain:
+        sc.topics[2] = dict(kind="grp", owner=rng.choice(sc.users), members=list(sc.users))
+    for u in sc.users:
+        sc.topics[10 + u] = dict(kind="me", owner=u)
+    si = 0
+    for u in [owner] + others:
+        for _ in range(1 if (u == owner and rng.random() < 0.6) else rng.randint(1, 2)):
+            si += 1
+            sc.sessions[si] = dict(user=u)
+    non_owner = [x for x in sc.sessions if sc.sessions[x]["user"] != owner]
+    slow = []
+    if rng.random() < 0.75:
+        slow = rng.sample(non_owner, min(len(non_owner), rng.randint(1, 2)))
+        for x in slow:
+            sc.sessions[x]["cap"] = 2
+    osess = [x for x in sc.sessions if sc.sessions[x]["user"] == owner]
+    rid = [0]
+
+    def nr():
+        rid[0] += 1
+        return "r%d" % rid[0]
+
+    def other(x):
+        return "grp" if natural_form(sc, x, 1) == "chn" else "chn"
+
+    def form(x, p_other):
+        return other(x) if rng.random() < p_other else natural_form(sc, x, 1)
+
+    gone = set()        # sessions that disconnected
+
+    def mix_request(x):
+        u = sc.sessions[x]["user"]
+        r = rng.random()
+        if plain and r < 0.12:
+            # the plain group topic addressed by a channel name
+            rr = rng.random()
+            if rr < 0.45:
+                return "q %d %s sub 2 0 as=%s" % (x, nr(), "chn" if rng.random() < 0.4 else "grp")
+            if rr < 0.9:
+                return "q %d %s leave 2 0 as=%s" % (x, nr(), "chn" if rng.random() < 0.5 else "grp")
+            return "q %d %s leave 2 1 as=chn" % (x, nr())
+        if r < 0.45:
+            return "q %d %s sub 1 0 as=%s" % (x, nr(), form(x, 0.4))
+        if r < 0.80:
+            return "q %d %s leave 1 0 as=%s" % (x, nr(), form(x, 0.5))
+        if r < 0.88:
+            return "q %d %s leave 1 1 as=%s" % (x, nr(), form(x, 0.5))
+        if r < 0.96:
+            if u == owner:
+                return "q %d %s pub 1" % (x, nr())
+            return "q %d %s sub 1 0 as=%s" % (x, nr(), form(x, 0.5))
+        gone.add(x)
+        return "q %d %s disc" % (x, nr())
+
+    for x in sorted(sc.sessions):
+        sc.bursts.append(["q %d %s sub %d" % (x, nr(), me_of(sc, sc.sessions[x]["user"]))])
+    sc.bursts.append(["q %d %s sub 1" % (x, nr()) for x in osess])
+    sc.bursts.append(["q %d %s sub 1 0 as=%s" % (x, nr(), form(x, 0.3)) for x in non_owner if rng.random() < 0.9])
+    stalled = set()
+    for ph in range(rng.randint(3, 6)):
+        r = rng.random()
+        if r < 0.5:
+            lines = ["i unstall %d" % x for x in sorted(stalled)] if rng.random() < 0.5 else []
+            if lines:
+                stalled.clear()
+            act = [x for x in sc.sessions if x not in gone and rng.random() < 0.65]
+            per = {x: rng.randint(1, 2) for x in act}
+            while any(per.values()):
+                x = rng.choice([y for y, n in per.items() if n > 0])
+                per[x] -= 1
+                if x in gone:
+                    continue
+                lines.append(mix_request(x))
+            if lines:
+                sc.bursts.append(lines)
+        elif r < 0.85 and slow:
+            # slow-consumer phase: the small-queue sessions (re)attach, their writers stall, the owner publishes
+            o = rng.choice(osess)
+            pre = ["q %d %s sub 1" % (o, nr())] if o not in gone else []
+            pre += ["q %d %s sub 1 0 as=%s" % (x, nr(), form(x, 0.25)) for x in slow if x not in gone and rng.random() < 0.8]
+            if pre:
+                sc.bursts.append(pre)
+            lines = []
+            for x in slow:
+                if x not in gone and x not in stalled:
+                    lines.append("i stall %d" % x)
+                    stalled.add(x)
+            if o not in gone:
+                lines += ["q %d %s pub 1" % (o, nr()) for _ in range(rng.randint(3, 4))]
+            if rng.random() < 0.4:
+                act = [x for x in non_owner if x not in gone and x not in slow and rng.random() < 0.5]
+                lines += [mix_request(x) for x in act]
+            sc.bursts.append(lines)
+            lines = ["i unstall %d" % x for x in sorted(stalled)]
+            stalled.clear()
+            if rng.random() < 0.5:
+                lines += [mix_request(x) for x in slow if x not in gone]
+            sc.bursts.append(lines)
+        else:
+            # everybody leaves the channel (under the name attached with or not), then its idle timer fires
+            lines = ["i unstall %d" % x for x in sorted(stalled)]
+            stalled.clear()
+            for x in sorted(sc.sessions):
+                if x not in gone:
+                    lines.append("q %d %s leave 1 0 as=%s" % (x, nr(), form(x, 0.3)))
+                    lines.append("q %d %s leave 1 0 as=%s" % (x, nr(), form(x, 0.5)))
+            sc.bursts.append(lines)
+            sc.bursts.append(["i unload 1"])
+    lines = ["i unstall %d" % x for x in sorted(stalled)]
+    for x in sorted(sc.sessions):
+        if x in gone:
+            continue
+        a = form(x, 0.5)
+        lines.append("q %d %s sub 1 0 as=%s" % (x, nr(), a))
+        lines.append("q %d %s sub 1 0 as=%s" % (x, nr(), "grp" if a == "chn" else "chn"))
+    sc.bursts.append(lines)
+    return sc
+
+
+
 def gen_seq_scn(rng, sid):
     """one request per burst, group topics only, owners delete: the model's alphabet"""
     sc = gen_setup(rng, sid, seq=True, model_scope=True)
@@ -308,6 +455,11 @@ def parse_out(text):
             d["foreign"] = [x for x in d.get("sessions", "").split(",") if x.startswith("?")]
             d["sessions"] = set(int(x) for x in d.get("sessions", "").split(",") if x and not x.startswith("?"))
             d["online"] = dict((int(a), int(c)) for a, c in (x.split(":") for x in d.get("online", "").split(",") if x))
+            # sessions attached as channel subscriptions (perSessionData.isChanSub) / users cached as channel readers
+            # (perUserData.isChan), read off the real objects
+            d["haschan"] = "chansess" in d
+            d["chansess"] = set(int(x) for x in d.get("chansess", "").split(",") if x)
+            d["chanusers"] = set(int(x) for x in d.get("chanusers", "").split(",") if x)
             b["topics"][int(w[2])] = d
         elif w[0] == "goroutines":
             b["goroutines"] = int(w[1])
@@ -377,7 +529,9 @@ def requests_of(burst_lines):
     for l in burst_lines:
         w = l.split()
         if w[0] == "q":
-            res.append(dict(si=int(w[1]), rid=w[2], kind=w[3], k=int(w[4]) if len(w) > 4 else None, arg=w[5] if len(w) > 5 else None))
+            res.append(dict(si=int(w[1]), rid=w[2], kind=w[3], k=int(w[4]) if len(w) > 4 else None,
+                            arg=w[5] if len(w) > 5 and not w[5].startswith("as=") else None,
+                            **{"as": ([x[3:] for x in w[5:] if x.startswith("as=")] or [None])[0]}))
     return res
 
 
@@ -443,6 +597,8 @@ def monitor0(sc, r):
     slow = set(si for si, s in sc.sessions.items() if s.get("cap"))
     broken = set()       # sessions whose in-flight semaphore was already reported stuck
     dead = set()         # sessions abandoned inside {del user}
+    chan_dropped = {}    # (chn topic, user) -> upper bound of the sessions attached under the channel name that were dropped
+    mismatch_left = {}   # (chn topic, user) -> number of {leave} requests answered 404 = detached on the name-form mismatch path
     nleaked = 0
     for bi, b in enumerate(r["bursts"]):
         lines = sc.bursts[bi] if bi < len(sc.bursts) else []
@@ -513,8 +669,20 @@ def monitor0(sc, r):
                 continue
             got = ctrl.get((q["si"], q["rid"]), [])
             st = b["sess"].get(q["si"], {})
+            if q["kind"] == "leave" and q["arg"] != "1" and sc.topics.get(q["k"], {}).get("kind") == "chn" and (
+                    404 in got or (not got and (st.get("closed") or st.get("term") or q["si"] in slow or q["si"] in stalled))):
+                # handleLeaveRequest answers 404 to a {leave} of a channel-enabled topic only on the path where the name
+                # form of the request (grpXXX / chnXXX) differs from the form the session attached under: the session
+                # HAS been detached (remSession, delSub) and the function returned before the per-user accounting.
+                # (a reply that was dropped by design - closing session, full queue - is counted as a possible 404)
+                key = (q["k"], sc.sessions[q["si"]]["user"])
+                mismatch_left[key] = mismatch_left.get(key, 0) + 1
             if len(got) > 1:
-                res.append(("reply-duplicated", bi, "request %s (%s) of session %d answered %d times: %s" % (q["rid"], q["kind"], q["si"], len(got), got)))
+                plain_as_chn = (q["kind"] == "leave" and q.get("as") == "chn" and sc.topics.get(q["k"], {}).get("kind") == "grp"
+                                and len(got) == 2 and got[0] == 404)
+                res.append(("leave-chn-name-on-plain-group-answered-twice" if plain_as_chn else "reply-duplicated", bi,
+                            "request %s (%s%s) of session %d answered %d times: %s" % (
+                                q["rid"], q["kind"], (" addressed as " + q["as"] + "XXX") if q.get("as") else "", q["si"], len(got), got)))
             nonowner_del = bool(q.get("nonowner"))
             if q["kind"] not in EXPECT_REPLY or got:
                 continue
@@ -575,6 +743,16 @@ def monitor0(sc, r):
             if b["unstuck"] or b["parked"] or b["abandoned"] or b.get("unblocked_stop") or b.get("parked_purge"):
                 continue      # diagnosed above
             res.append(("hang", bi, h[:1500]))
+        # ---- sessions that were attached to a channel-enabled topic under its CHANNEL name and are not attached any more
+        for k, t in b["topics"].items():
+            if sc.topics.get(k, {}).get("kind") != "chn":
+                continue
+            was = set(prev["topics"].get(k, {}).get("chansess", ())) if prev else set()
+            was |= set(q["si"] for q in reqs if q["kind"] == "sub" and q["k"] == k and (q.get("as") or natural_form(sc, q["si"], k)) == "chn")
+            for si in was:
+                if not (t["loaded"] and si in t["sessions"]):
+                    key = (k, sc.sessions[si]["user"])
+                    chan_dropped[key] = chan_dropped.get(key, 0) + 1
         # ---- state at quiescence
         for si, st in b["sess"].items():
             live = st["term"] == 0
@@ -604,8 +782,23 @@ def monitor0(sc, r):
                 elif have < 0:
                     res.append(("online-count-negative", bi, "topic %d: online count of user %d is %d" % (k, u, have)))
                 elif have != cnt.get(u, 0):
-                    chan = sc.topics[k]["kind"] == "chn" and u != sc.topics[k]["owner"] and u not in sc.topics[k]["members"] and have > cnt.get(u, 0)
-                    res.append(("online-count-chan-reader" if chan else "online-count", bi, "topic %d: online count of user %d is %d, attached sessions %d" % (k, u, have, cnt.get(u, 0))))
+                    over = have - cnt.get(u, 0)
+                    if t.get("haschan"):
+                        # exact: the per-user record says "channel reader" (perUserData.isChan)
+                        chan = sc.topics[k]["kind"] == "chn" and u in t["chanusers"] and over > 0
+                    else:
+                        chan = sc.topics[k]["kind"] == "chn" and u != sc.topics[k]["owner"] and u not in sc.topics[k]["members"] and over > 0
+                    # a subscriber (not a reader) whose {leave} was answered 404 on the name-form mismatch path: same early
+                    # return of handleLeaveRequest; at most one count per such {leave}
+                    # a subscriber (not cached as a reader) one of whose sessions was attached under the CHANNEL name and
+                    # was dropped (disconnect, slow consumer, mismatching {leave}): the same early return; at most one
+                    # count per such session / per {leave} answered 404
+                    if not chan and sc.topics[k]["kind"] == "chn" and 0 < over <= chan_dropped.get((k, u), 0):
+                        chan = True
+                    mism = (not chan) and sc.topics[k]["kind"] == "chn" and 0 < over <= chan_dropped.get((k, u), 0) + mismatch_left.get((k, u), 0)
+                    law = "online-count-chan-reader" if chan else "online-count-leave-name-mismatch" if mism else "online-count"
+                    res.append((law, bi, "topic %d: online count of user %d is %d, attached sessions %d%s" % (
+                        k, u, have, cnt.get(u, 0), (" (%d {leave} of this user answered 404 = name form differs from the form attached under)" % mismatch_left.get((k, u), 0)) if mism else "")))
         # ---- deletion
         for q in reqs:
             if q["kind"] == "sub" and q["k"] in deleted:
@@ -638,7 +831,11 @@ def monitor0(sc, r):
                         continue
                     if str(k) in gone.get(si, ()) or str(k) in evicted.get(si, ()):
                         continue
-                    reader = sc.topics[k]["kind"] == "chn" and u != sc.topics[k]["owner"] and u not in sc.topics[k]["members"]
+                    pt = prev["topics"].get(k, {})
+                    if pt.get("haschan"):
+                        reader = si in pt["chansess"]      # exact: the session was attached as a channel subscription
+                    else:
+                        reader = sc.topics[k]["kind"] == "chn" and u != sc.topics[k]["owner"] and u not in sc.topics[k]["members"]
                     on_me = mek is not None and mek in st0["subs"] and mek in st1["subs"]
                     if reader:
                         law = "deleted-told-gone-chan-reader"
@@ -776,6 +973,7 @@ def run(ctx):
                     csc.allowed = list(rp.get("outcomes", []))
                     bursts.append(csc)
         bursts += [gen_burst_scn(rng, "b%d" % i) for i in range(120 if quick else 1500)]
+        bursts += [gen_chan_scn_c14c(rng, "h%d" % i) for i in range(60 if quick else 800)]
         seqs = [gen_seq_scn(rng, "s%d" % i) for i in range(150 if quick else 1500)]
     t0 = time.time()
     results, logs = run_driver(ctx, bursts + seqs)
